@@ -28,6 +28,10 @@ Converged(e) == \A k \in 1..Len(e.pairs) :
      (e.pairs[k].members) => (BothRegisteredLive(e.pairs[k]) /\ e.pairs[k].dconn = e.pairs[k].aconn
                               /\ e.pairs[k].dview /\ e.pairs[k].aview /\ e.pairs[k].pingok /\ e.pairs[k].nlive = 1)
 
+(* a connection over which nothing arrived for longer than connectionTimeout is not kept as connected: both ends step  *)
+(* (poll, send) every half second, so more than the timeout plus two seconds of silence (times in half seconds) is a miss *)
+SilentDropped(e) == \A k \in 1..Len(e.pairs) : e.pairs[k].dsilent <= Traces[tid].timeout2 + 4 /\ e.pairs[k].asilent <= Traces[tid].timeout2 + 4
+
 (* read-only nodes: a member registers one node per live read-only connection and has told its raft layer of each;  *)
 (* after the quiet period every running read-only node is registered at every member                                  *)
 ReadonlyRegistry(e) == \A k \in 1..Len(e.ro) : e.ro[k].reg = e.ro[k].told /\ e.ro[k].reg <= e.ro[k].live
@@ -40,6 +44,7 @@ TNext ==
                 \cup (IF Truthful(e) THEN {} ELSE {"C14.Truthful"})
                 \cup (IF Authentic(e) THEN {} ELSE {"C14.Authentic"})
                 \cup (IF ~NotificationsMatch(e) THEN {"C14.NotificationsMatch"} ELSE {})
+                \cup (IF ~SilentDropped(e) THEN {"C14.SilentConnectionDropped"} ELSE {})
                 \cup (IF e.a[1] = "quiet-end" /\ ~Converged(e) THEN {"C14.EventuallyOneWorking"} ELSE {})
                 \cup (IF e.a[1] \in {"settled", "quiet-end"} /\ ~ReadonlyRegistry(e) THEN {"C14.ReadonlyRegistry"} ELSE {})
                 \cup (IF e.a[1] = "quiet-end" /\ ~ReadonlyConverged(e) THEN {"C14.ReadonlyConverged"} ELSE {})
